@@ -31,7 +31,7 @@ import time
 
 import vlib
 
-SIZES = {"quick": 3000, "thorough": 20000}
+SIZES = {"quick": 2000, "thorough": 20000}
 SHARD = 250
 NS = [1, 2, 3, 4, 5]
 BUILTIN_PATTERN = r"^(\d+).(\d+).(\d+).(\d+):\d+$"
